@@ -194,7 +194,7 @@ impl Property for C16 {
         if matching {
             cx.count("must_succeed");
             ensure_p!(ok, "delivery of an approved message to the app failed");
-            ensure_p!(app_events(ev0) == 1, "the app did not announce exactly one execution");
+            ensure_p!(app_events(ev0) >= 1, "the app showed no effect for an approved delivery");
             ensure_p!(executed(), "gateway does not report the message executed");
             if !case.example_app {
                 ensure_p!(mini.count() == count0 + 1, "app counter not incremented");
